@@ -264,6 +264,11 @@ def h_listmember(ctx, cls, classes):
     M = ofxgen.class_by_name(mname)
     ma, mk = ofxgen.base_instance(M)
     member = ofxgen.build(M, ma, mk)
+    # preceding workload: the member's class is used validly in a container that does declare it
+    home = ofxgen.container_of(M)
+    if home is not None and home[0] is not K:
+        ha, hk = ofxgen.base_instance(home[0])
+        constructs(home[0], list(ha) + [ofxgen.build(M, ma, mk)], hk)
     allowed = mname.lower() in K.listaggregates
     ok = constructs(K, list(args) + [member], kwargs)
     ctx.check("list member of an undeclared class is rejected", ctx.implies(not allowed, not ok))
